@@ -308,7 +308,11 @@ def model_check(work, module, consts, invariants=(), props=(), workers=None, tim
         except Exception:
             return False
         count[0] += 1
-        if keep is None or keep(row):
+        if keep is None:
+            rows.append(row)
+        elif hasattr(keep, "add"):
+            keep.add(row)
+        elif keep(row):
             rows.append(row)
         return True
 
@@ -318,6 +322,8 @@ def model_check(work, module, consts, invariants=(), props=(), workers=None, tim
         raise Inconclusive("model check %s failed (rc=%d): the specification violates its own monitors or does not evaluate:\n%s"
                            % (name or module, rc, tail_of(out)))
     nexp = count[0]
+    if keep is not None and hasattr(keep, "rows"):
+        rows = keep.rows()
     stats["exported"] = nexp
     log("[tlc] %s %s: %d states (%d distinct), %d behaviours exported (%d kept), %.1fs" % (
         name or module, json.dumps(consts), stats["generated"], stats["distinct"], nexp, len(rows), stats["wall_s"]))
